@@ -658,9 +658,15 @@ static void mode_extent(fm_t* m, uint64_t* nontrivial)
     }
     /* (b) exact-extent buffers of the *published* length */
     size_t n = f->lenmacro;
-    for (int placement = 0; placement < (heap ? 1 : 2); placement++) {
-        uint8_t* buf = heap ? vp_heap(n) : (placement == 0 ? vp_guard_end(n) : vp_guard_begin(n));
-        const char* pname = heap ? "heap-exact" : (placement == 0 ? "guard-after" : "guard-before");
+    /* heap blocks: the header also as the tail of a block of n + k bytes (k = 4, 8, 12, 2, 1), so that it ends at the end of
+     * the object at every residue of its start address modulo 8 - a widened (8-byte) access to the last quadlet is inside
+     * the header's own aligned word when the header starts on a 16-byte boundary, and behind the object when it does not */
+    static const uint32_t heapk[6] = { 0, 4, 8, 12, 2, 1 };
+    static const char* const heapname[6] = { "heap-exact", "heap-exact-tail+4", "heap-exact-tail+8", "heap-exact-tail+12", "heap-exact-tail+2", "heap-exact-tail+1" };
+    for (int placement = 0; placement < (heap ? 6 : 2); placement++) {
+        uint32_t hk = heap ? heapk[placement] : 0;
+        uint8_t* buf = heap ? vp_heap(n + hk) + hk : (placement == 0 ? vp_guard_end(n) : vp_guard_begin(n));
+        const char* pname = heap ? heapname[placement] : (placement == 0 ? "guard-after" : "guard-before");
         for (uint32_t rep = 0; rep < 4; rep++) {
             for (uint32_t fi = 0; fi < f->nfields; fi++) {
                 const vp_field_t* fld = &f->fields[fi];
@@ -736,7 +742,7 @@ static void mode_extent(fm_t* m, uint64_t* nontrivial)
                 }
             }
         }
-        if (heap) vp_heap_free(buf); else vp_guard_free(buf, n);
+        if (heap) vp_heap_free(buf - hk); else vp_guard_free(buf, n);
     }
 }
 
@@ -936,6 +942,37 @@ static void mode_badargs(fm_t* m, uint64_t* nontrivial)
                 ba_run(m, &g2, "invalid-id+null-pdu", idc[i], 1, EINVAL_RC, nontrivial);
                 ba_call_t g3 = { f, 0, 5, ids[i], 0, PDU(m), 0, 0, 0 };
                 ba_run(m, &g3, "invalid-id+null-result", idc[i], 1, EINVAL_RC, nontrivial);
+            }
+        }
+    }
+    /* realistic prior contents: the canonical image of the format with every length-like field (9..16 bits) saturated and
+     * one selector-like field (<= 8 bits) at each of its values - an acceptance that is gated on "the buffer looks like a
+     * stream of kind X" needs such a header, random bytes practically never form one */
+    if (f->image) {
+        for (uint32_t fi = 0; fi < f->nfields; fi++) {
+            const vp_field_t* sel = &f->fields[fi];
+            if (sel->width > 8) continue;
+            for (uint64_t sv = 0; sv <= bf_mask(sel->width); sv++) {
+                memcpy(hdr, f->image, n);
+                for (uint32_t k = 0; k < f->nfields; k++) {
+                    const vp_field_t* lf = &f->fields[k];
+                    if (lf->width >= 9 && lf->width <= 16) bf_set(hdr, lf->pos, lf->width, (sv & 1) ? bf_mask(lf->width) : bf_mask(lf->width) >> 1);
+                }
+                bf_set(hdr, sel->pos, sel->width, sv);
+                for (uint32_t i = 0; i < nid && i < 4; i++) {
+                    fm_load(m, hdr, n);
+                    ba_call_t e = { f, 0, 0, ids[i], 0, PDU(m), 0, 0, 0 };
+                    ba_run(m, &e, "invalid-id", "realistic-header", 0, 0, nontrivial);
+                    ba_call_t w = { f, 0, 1, ids[i], vp_rng_next(&c->rng), PDU(m), 0, 0, 0 };
+                    ba_run(m, &w, "invalid-id", "realistic-header", 0, 0, nontrivial);
+                    if (f->lget) {
+                        memset(res, 0xc3, 8); memcpy(m->a.shadow + m->off + 256, res, 8);
+                        ba_call_t g = { f, 0, 5, ids[i], 0, PDU(m), res, 0, 0 };
+                        ba_run(m, &g, "invalid-id", "realistic-header", 1, EINVAL_RC, nontrivial);
+                        ba_call_t s = { f, 0, 6, ids[i], vp_rng_next(&c->rng), PDU(m), 0, 0, 0 };
+                        ba_run(m, &s, "invalid-id", "realistic-header", 1, EINVAL_RC, nontrivial);
+                    }
+                }
             }
         }
     }
